@@ -857,7 +857,10 @@ func (dht *FullRT) getValues(ctx context.Context, key string) (<-chan RecvdVal, 
 
 	logger.Debugw("finding value", "key", internal.LoggableRecordKeyString(key))
 
-	if rec, err := dht.getLocal(ctx, key); rec != nil && err == nil {
+	// The value store only age-checks records on read: run the validator so that
+	// the local record enters the search under the same rules as records received
+	// from the network (like the standard client does).
+	if rec, err := dht.getLocal(ctx, key); rec != nil && err == nil && dht.Validator.Validate(key, rec.GetValue()) == nil {
 		select {
 		case valCh <- RecvdVal{
 			Val:  rec.GetValue(),
